@@ -11,6 +11,7 @@ import (
 	"math/rand"
 	"os"
 	"path/filepath"
+	"reflect"
 	"strconv"
 	"sync"
 )
@@ -143,6 +144,21 @@ func NewTrace(name string) *Trace {
 }
 
 func (t *Trace) Emit(ev map[string]any) {
+	// JSON null cannot be read back by TLC's Json module: nil slices/maps become empty ones
+	for k, v := range ev {
+		if v == nil {
+			delete(ev, k)
+			continue
+		}
+		rv := reflect.ValueOf(v)
+		if (rv.Kind() == reflect.Slice || rv.Kind() == reflect.Map) && rv.IsNil() {
+			if rv.Kind() == reflect.Slice {
+				ev[k] = []any{}
+			} else {
+				ev[k] = map[string]any{}
+			}
+		}
+	}
 	b, err := json.Marshal(ev)
 	if err != nil {
 		panic(fmt.Sprintf("trace marshal: %v", err))
